@@ -88,7 +88,7 @@ func (r *REPL) Run(line string) error {
 	if err != nil {
 		// Detect that we should start a continuation line
 		// FIXME detect EOF properly!
-		errText := err.Error()
+		errText := errorMessage(err)
 		if strings.Contains(errText, "unexpected EOF while parsing") || strings.Contains(errText, "EOF while scanning triple-quoted string literal") {
 			stripped := strings.TrimSpace(toCompile)
 			isComment := len(stripped) > 0 && stripped[0] == '#'
@@ -115,6 +115,30 @@ func (r *REPL) Run(line string) error {
 		py.TracebackDump(err)
 	}
 	return nil
+}
+
+// errorMessage returns the message of a compile error without the
+// file name, position and source line which Error() adds for syntax
+// errors, so that the text the user typed can't be mistaken for the
+// message.
+func errorMessage(err error) string {
+	var exc *py.Exception
+	switch e := err.(type) {
+	case *py.Exception:
+		exc = e
+	case py.ExceptionInfo:
+		exc, _ = e.Value.(*py.Exception)
+	case *py.ExceptionInfo:
+		exc, _ = e.Value.(*py.Exception)
+	}
+	if exc != nil {
+		if args, ok := exc.Args.(py.Tuple); ok && len(args) > 0 {
+			if msg, ok := args[0].(py.String); ok {
+				return string(msg)
+			}
+		}
+	}
+	return err.Error()
 }
 
 // WordCompleter takes the currently edited line with the cursor
